@@ -12,7 +12,7 @@ from hv.symx.core import E, S
 
 META = {
     "engine": "symx",
-    "level": "proof",
+    "level": "other",
     "technique": "contract-based: (1) postcondition of ResolveOuterVars.visit_OuterVar against an independent resolver spec, "
                  "decided by complete exploration of the real method over every enclosing-scope chain of depth <= 4 (scope "
                  "kinds function / class / let, every assignment of the declared names to scopes, every module-level set) - "
@@ -26,7 +26,7 @@ META = {
             "to Python's own error. Skeleton programs (spines of fn / class / let of depth 1..4 with definitions at varying "
             "levels, the declaration in the innermost function, assignment after it, reads at every level afterwards) "
             "behave exactly like the reference program; declaring a name after using it is a Hy syntax error.",
-    "note": "Trusted: the reference resolver and renamer; CPython as executor. Depth 4 is the property's own bound; within it "
+    "note": "Level `other`: decided by complete enumeration of a finite domain (the property's own depth bound), not by a deductive proof. Trusted: the reference resolver and renamer; CPython as executor. Depth 4 is the property's own bound; within it "
             "the exploration of visit_OuterVar is exhaustive (quick: depth 3). The declaration is placed at the start of a "
             "function body (not directly inside the let that binds the name, which Hy rejects and the docs do not define).",
 }
